@@ -340,6 +340,18 @@ def run_behaviour(steps, seed_hex="5e" * 64, world=None, private_gens=None, tag=
                     raise Mismatch("network", "wallet imported from %s has network %s" % (s[:8], "test" if wl.testnet else "main"))
                 W.watch, W.watch_src, W.watch_str = wl, path, s
                 W.objs[("watch", ())] = wl.master
+            elif a == "PaperReq":
+                t, acct, rows = args[0], args[1], args[2]
+                got = W.full.generate(account=acct, interval=(1, 1 + rows))
+                ref = PaperWallet.from_extended_key(W.root_xprv).generate(account=acct, interval=(1, 1 + rows))
+                W.checks += 1
+                for k in ("BIP44", "BIP49", "BIP84", "BIP85"):
+                    if got[k] != ref[k]:
+                        raise Mismatch("purity", "generate(account=%d) on the shared wallet: section %s differs from a fresh wallet's" % (acct, k))
+                from .acts import wallet_leaves
+                for role, s in wallet_leaves(got)[0]:
+                    if role in ("addr", "wif", "pub", "prv"):
+                        W.emit("full", s)
             elif a == "Scramble":
                 w, path = args[0], norm_path(args[1])
                 if W.has(w, path):
